@@ -175,7 +175,12 @@ def run_room_codecs(part, h, w, cap):
     for rooms in partitions(h, w):
         base = {"height": h, "width": w, "rooms": rooms}
         presentations = [rooms, [list(reversed(r)) for r in reversed(rooms)]]
-        for pres in presentations:
+        # further list orders (rotations, a 3-cycle, an interleaving): judged with clue sets of pairwise distinct values only
+        extra = []
+        if len(rooms) >= 3:
+            extra = [rooms[1:] + rooms[:1], rooms[2:] + rooms[:2], [rooms[1], rooms[2], rooms[0]] + rooms[3:], rooms[::2] + rooms[1::2]]
+            extra = [e for k, e in enumerate(extra) if e not in presentations and e not in extra[:k]]
+        for pres in presentations + extra:
             # lits / norinori: Rooms only
             for cname, m, ser, de in (("lits", lits, "serialize_lits", "deserialize_lits"), ("norinori", norinori, "serialize_norinori", "deserialize_norinori")):
                 case = dict(base, codec=cname, rooms=pres)
@@ -206,7 +211,9 @@ def run_room_codecs(part, h, w, cap):
             k = len(pres)
             menus = [-1, 0, 1, 15, 16, 255]
             clue_sets = [[-1] * k]
-            if len(menus) ** k <= cap:
+            if pres in extra:
+                clue_sets = [[i % 250 for i in range(k)], [(-1 if i % 3 == 2 else (i * 7) % 19) for i in range(k)]]
+            elif len(menus) ** k <= cap:
                 clue_sets = [list(c) for c in itertools.product(menus, repeat=k)]
             else:
                 for i in range(k):
